@@ -108,6 +108,22 @@ var deepRoutes = []struct {
 	}},
 }
 
+// deepDataActions walk the structure `head` from Go.
+var deepDataActions = []struct {
+	Name string
+	Do   func(vm *otto.Otto) error
+}{
+	{"Copy", func(vm *otto.Otto) error { c := vm.Copy(); _, err := c.Run(`typeof head`); return err }},
+	{"Export", func(vm *otto.Otto) error { v, _ := vm.Get("head"); _, err := v.Export(); return err }},
+	{"MarshalJSON", func(vm *otto.Otto) error { v, _ := vm.Get("head"); _, err := v.MarshalJSON(); return err }},
+	{"String", func(vm *otto.Otto) error { v, _ := vm.Get("head"); _ = v.String(); return nil }},
+	{"script-walks", func(vm *otto.Otto) error {
+		_, err := vm.Run(`void [String(head), JSON.stringify(head), Object.keys(head).length, typeof head.toString, head instanceof Object]`)
+		return err
+	}},
+	{"Context", func(vm *otto.Otto) error { c := vm.Context(); _ = len(c.Symbols); return nil }},
+}
+
 // deepDepths: which depths a (construct, closed, route) is run at.
 //
 //	10^3, 10^4   everything, both tiers
@@ -169,6 +185,44 @@ func runDeepSource(r *rc) {
 						}}
 					execGeneric(r, base, g, 211)
 				}
+			}
+		}
+	}
+	// deep DATA: a structure nested N deep, built by a loop, handed to the public
+	// API calls that walk structures recursively in Go
+	depths := []int{10000}
+	if r.Thorough() {
+		depths = []int{10000, 100000, 1000000}
+	}
+	for _, st := range []struct{ Name, Src string }{
+		{"list", `var head = null; for (var i = 0; i < N; i++) head = {next: head};`},
+		{"nested-array", `var head = []; for (var i = 0; i < N; i++) head = [head];`},
+		{"closure-chain", `var head = function(){ return 0 }; for (var i = 0; i < N; i++) head = (function(f){ return function(){ return f } })(head);`},
+		{"prototype-chain", `var head = {}; for (var i = 0; i < N; i++) head = Object.create(head);`},
+	} {
+		for _, n := range depths {
+			for _, act := range deepDataActions {
+				if st.Name == "closure-chain" && n > 100000 {
+					continue // 10^6 closures need more memory than the child may use: the script's own data
+				}
+				key := fmt.Sprintf("data-%s|%d|true|%s", st.Name, n, act.Name)
+				if !r.MineKey(key) {
+					continue
+				}
+				if r.Expired() {
+					r.Cap("time budget reached")
+					return
+				}
+				st, n, act := st, n, act
+				g := gcase{Key: key, Desc: fmt.Sprintf("N = %d; %s then %s", n, st.Src, act.Name), Limit: 1000,
+					Aux: map[string]string{"group": "data-" + st.Name, "construct": "data-" + st.Name, "depth": fmt.Sprint(n), "closed": "true", "route": act.Name},
+					Do: func(vm *otto.Otto) (otto.Value, error) {
+						if _, err := vm.Run(fmt.Sprintf("var N = %d; %s", n, st.Src)); err != nil {
+							return otto.Value{}, err
+						}
+						return otto.Value{}, act.Do(vm)
+					}}
+				execGeneric(r, base, g, 7)
 			}
 		}
 	}
